@@ -716,3 +716,38 @@ func lemmaRawAllIsRenderAll(last, mid branchFormat, roots []*Node, i int) {
 //@   modifies Node.children, Node.parent, Node.brnch.value, Node.brnch.path, list.List.view, list.Element.backOf, counter.n, bufio.Scanner.pos, bufio.Scanner.failed, markdown.Parser.isSharpRoot, markdown.Parser.spaces, markdown.Parser.sep, cbTrace, cbFailed, cbLastErr
 //@   ensures walk [C05,C03]: exists c *config :: {c.massive} fresh(c) && (!c.massive ==> (result == nil ==> !cbFailed && (exists rs []*Node :: allRoots(rs) && cbTrace == old(cbTrace) ++ specPreorderAll(rs, len(rs)))) && (cbFailed ==> result == cbLastErr && result != nil))
 //@ applies fromMarkdownWalk to gtree.WalkFromMarkdown, gtree.Walk
+
+// ---------------------------------------------------------------------------------------------
+// Iterator route of OutputFromMarkdown: three coroutines (iter.Pull2) connected by streams.
+// A stream fixes the values a producer may yield (requires), what the consumer may modify between two yields
+// (modifies) and what resuming the producer may modify (resumes). Heap separation between the trees already
+// yielded and the one under construction is not modelled: functional facts do not survive a resume.
+
+//@ stream rootStream(n, e)
+//@   requires nonnil [C12]: e == nil ==> n != nil && n.hierarchy == 1
+//@   modifies Node.brnch.value, Node.brnch.path, out, wfail, defaultSpreaderSimple.w, counter.n
+//@   resumes Node.children, Node.parent, list.List.view, list.Element.backOf, counter.n, bufio.Scanner.pos, bufio.Scanner.failed, markdown.Parser.isSharpRoot, markdown.Parser.spaces, markdown.Parser.sep
+
+//@ stream grownStream(n, e)
+//@   requires nonnil [C12]: e == nil ==> n != nil && n.hierarchy == 1
+//@   modifies out, wfail, defaultSpreaderSimple.w, counter.n
+//@   resumes Node.children, Node.parent, list.List.view, list.Element.backOf, counter.n, bufio.Scanner.pos, bufio.Scanner.failed, markdown.Parser.isSharpRoot, markdown.Parser.spaces, markdown.Parser.sep, Node.brnch.value, Node.brnch.path
+
+//@ stream errStream(e)
+//@   modifies nothing
+//@   resumes Node.children, Node.parent, list.List.view, list.Element.backOf, counter.n, bufio.Scanner.pos, bufio.Scanner.failed, markdown.Parser.isSharpRoot, markdown.Parser.spaces, markdown.Parser.sep, Node.brnch.value, Node.brnch.path, out, wfail, defaultSpreaderSimple.w
+
+//@ func gtree.rootGeneratorSimple.generateIter
+//@   requires ok: genOK(rg)
+//@   yields rootStream
+//@ closure gtree.rootGeneratorSimple.generateIter#1
+//@   yields rootStream
+//@   requires ok: genOK(rg)
+//@   requires init: stack == nil && root == nil
+//@   modifies Node.children, Node.parent, list.List.view, list.Element.backOf, counter.n, bufio.Scanner.pos, bufio.Scanner.failed, markdown.Parser.isSharpRoot, markdown.Parser.spaces, markdown.Parser.sep, Node.brnch.value, Node.brnch.path, out, wfail, defaultSpreaderSimple.w
+//@ loop gtree.rootGeneratorSimple.generateIter#1#1
+//@   invariant ok: genOK(rg)
+//@   invariant root: root != nil ==> root.hierarchy == 1
+//@   invariant open: stack != nil ==> chain(stack)
+//@   invariant closed: stack == nil ==> root == nil
+//@   decreases len(rg.scanner.lines) - rg.scanner.pos
